@@ -528,7 +528,8 @@ func runC12(c *ctx) {
 	c.res.Rule = "micro (9-bit N, exhaustive plaintext range), 3 small (64/128-bit N) and >= 2 real 2048-bit Paillier keys, each key both as SecretKey " +
 		"(CRT route) and as NewPublicKey(N); plaintext lattice 0, +-1, +-(N-1)/2 and neighbours, +-N, +-2^k, random in/out of range; " +
 		"sum/product pairs in, on and just outside the range; ciphertext candidates around 0, N, N^2, multiples of p, q, N, random; " +
-		"Modulus.Exp/ExpI operand grid; MtA scalars {0,1,q-1,random}^2. One case = one operation on one operand tuple; " +
+		"Modulus.Exp/ExpI operand grid; MtA scalars {0,1,q-1,random}^2; sequences of calls on shared objects (ops seq, seqmta: every object serialised " +
+		"before/after every call, objects reused afterwards). One case = one operation on one operand tuple; " +
 		"non-trivial = operands not all in {0,1}; distinct by (op, key, form, operands)"
 	// only small-key cases are re-evaluated with vm_compute (cases.v); real-size operands are far too slow there
 	c.m.MaxLogSize = 420
@@ -563,10 +564,12 @@ func runC12(c *ctx) {
 	}
 	// 1. micro key: every plaintext in [-N-2, N+2], both key forms; ciphertext candidates exhaustively (thorough) or sampled
 	g.microExhaustive(micro, T)
+	g.seqSuite(micro, lv(40, 200))
 	lap("micro key")
 	// 2. small keys
 	for _, k := range small {
 		g.keySuite(k, lv(2, 2), lv(1, 2), lv(1, 3))
+		g.seqSuite(k, lv(24, 120))
 	}
 	lap("small keys")
 	// 3. real keys (evaluated in parallel; MtA first: its library calls serialise on the randomness tape)
@@ -580,6 +583,11 @@ func runC12(c *ctx) {
 		g.keySuite(k, encLevel, lv(0, 2), lv(1, 2))
 	}
 	g.validateN(real[0], T)
+	// sequences of calls on shared objects (argument mutation, reuse), real size
+	for _, k := range real {
+		g.seqSuite(k, lv(4, 24))
+	}
+	g.seqMtaSuite(real, lv(4, 12))
 	nreal := len(g.batch)
 	g.flush()
 	g.batching = false
